@@ -105,9 +105,20 @@ def eq_conjuncts(f) -> list[ast.expr] | None:
     if len(rets) != 1:
         return None
     v = rets[0].value
-    if isinstance(v, ast.BoolOp) and isinstance(v.op, ast.And):
-        return list(v.values)
-    return [v] if v is not None else None
+    out = list(v.values) if isinstance(v, ast.BoolOp) and isinstance(v.op, ast.And) else ([v] if v is not None else [])
+    # `if not <c>: return False` / `if <a> != <b>: return False` before the final return are conjuncts too
+    pre: list[ast.expr] = []
+    for s in f.body:
+        if isinstance(s, ast.If) and not s.orelse and len(s.body) == 1 and isinstance(s.body[0], ast.Return) and isinstance(s.body[0].value, ast.Constant) and s.body[0].value.value is False:
+            t = s.test
+            if isinstance(t, ast.UnaryOp) and isinstance(t.op, ast.Not):
+                inner = t.operand
+                pre.extend(inner.values if isinstance(inner, ast.BoolOp) and isinstance(inner.op, ast.And) else [inner])
+            elif isinstance(t, ast.Compare) and len(t.ops) == 1 and isinstance(t.ops[0], ast.NotEq):
+                pre.append(ast.copy_location(ast.Compare(left=t.left, ops=[ast.Eq()], comparators=t.comparators), t))
+            elif isinstance(t, ast.BoolOp) and isinstance(t.op, ast.Or) and all(isinstance(x, ast.Compare) and len(x.ops) == 1 and isinstance(x.ops[0], ast.NotEq) for x in t.values):
+                pre.extend(ast.copy_location(ast.Compare(left=x.left, ops=[ast.Eq()], comparators=x.comparators), x) for x in t.values)
+    return (pre + out) or None
 
 
 @rule("C12")
